@@ -188,7 +188,7 @@ func runTok(which string) func(in sx.SX) (sx.SX, string) {
 	}
 }
 
-var tokAlphabet = []rune{'a', 'Z', '1', '0', '.', '-', '/', '*', '"', '\'', '<', '>', '=', '!', '{', '}', '#', ',', ' ', '\r', '\n', 'é', '日', '😀', 0xFFFF, '_', '(', '\t', 'e', '+', ';'}
+var tokAlphabet = []rune{'ÿ', 'À', 'Ā', 'a', 'Z', '1', '0', '.', '-', '/', '*', '"', '\'', '<', '>', '=', '!', '{', '}', '#', ',', ' ', '\r', '\n', 'é', '日', '😀', 0xFFFF, '_', '(', '\t', 'e', '+', ';'}
 
 func tokNontrivial(text []rune) bool {
 	classes := map[int]bool{}
@@ -275,7 +275,39 @@ func genTok(optionMode string) func(ctx *Ctx) {
 		if optionMode == "all" {
 			n = ctx.N / 2
 		}
-		fragments := []string{" /*c*/ ", " # c\n ", " 😀 ", "\t/**/ ", " \r\n ", "<=", "<>", "{{", "}}", "{{{", "}}}", "/*", "*/", "//", "1.5e+3", "-1", "'a''b'", "\"x\"", "AND", "not", "\r\n", "\n\r", "1e", "1.", "-.", "#c", "a-b", "1e5", ".5", "{{#if x}}", "{{/if}}", " \t "}
+		fragments := []string{"/***/", "/* x **/", "ÿ", "Àÿ", "<=<><=", ">=>>>=", "<<<=<<", "{{{x}}}{{y}}{{{z}}}", " /*c*/ ", " # c\n ", " 😀 ", "\t/**/ ", " \r\n ", "<=", "<>", "{{", "}}", "{{{", "}}}", "/*", "*/", "//", "1.5e+3", "-1", "'a''b'", "\"x\"", "AND", "not", "\r\n", "\n\r", "1e", "1.", "-.", "#c", "a-b", "1e5", ".5", "{{#if x}}", "{{/if}}", " \t "}
+		// runs of registered multi-character symbols (sibling symbols repeated on one instance)
+		syms := []string{"<=", "<>", "<<", ">=", ">>", "!=", "<", ">", "=", "{{", "}}", "{{{", "}}}", "\r\n", "\n\r"}
+		for i := 0; i < n/4+8; i++ {
+			var sb strings.Builder
+			k := 3 + ctx.Rnd.Intn(4)
+			for j := 0; j < k; j++ {
+				sb.WriteString(syms[ctx.Rnd.Intn(9)])
+				if ctx.Rnd.Intn(3) == 0 {
+					sb.WriteString([]string{" ", "a", "1"}[ctx.Rnd.Intn(3)])
+				}
+			}
+			emit([]rune(sb.String()), "symbol-run")
+		}
+		// multi-line texts: several lines of lexemes joined by ONE line-break style (LF, CR, CRLF, LFCR)
+		words := []string{"abc", "12", "1.5", "'q'", "<=", "+", "x_1", "#c", "/*c*/", "{{a}}", "\"s\"", "日本", " ", "a,b", ""}
+		for i := 0; i < n/4+8; i++ {
+			eol := []string{"\n", "\r", "\r\n", "\n\r"}[ctx.Rnd.Intn(4)]
+			var sb strings.Builder
+			lines := 2 + ctx.Rnd.Intn(4)
+			for j := 0; j < lines; j++ {
+				if j > 0 {
+					sb.WriteString(eol)
+				}
+				for k := ctx.Rnd.Intn(3); k >= 0; k-- {
+					sb.WriteString(words[ctx.Rnd.Intn(len(words))])
+					if ctx.Rnd.Intn(2) == 0 {
+						sb.WriteString(" ")
+					}
+				}
+			}
+			emit([]rune(sb.String()), "multi-line")
+		}
 		for i := 0; i < n; i++ {
 			ln := 1 + ctx.Rnd.Intn(14)
 			var text []rune
